@@ -14,6 +14,7 @@ import Rare.Proofs.C06Read
 import Rare.Proofs.C06Inflate
 import Rare.Model.C06File
 import Rare.Model.C06Dispatch
+import Rare.Model.C06Exec
 /-!
 # C06 — named inputs are each read once, decoded faithfully, and failures are reported
 
@@ -1461,5 +1462,86 @@ example :
     dispatch ⟨false, false, true, false, false, false, 3, 1000, 4⟩ [[97]] = .usage .tailNeedsFollow ∧
     dispatch ⟨false, false, false, false, true, false, 3, 1000, 4⟩ [] = .usage .gunzipStdin := by
   decide
+
+/-! # The reader goroutine of `OpenFilesToChan`, executed from its source text -/
+
+/-- The two executions of the regenerated body of the reader goroutine (`readerBody`, from
+    `Gen.C06.openFilesToChanTree`) when the condition `err != nil` is decided by whether `os.Open` failed:
+    statement by statement, deferred blocks unrolled at the return / at the end of the body. -/
+theorem reader_exec_source (f : FileOracle) :
+    exec (readerEnv f) readerBody =
+      if f.canOpen then
+        ["stmt:varfileio.ReadCloser", "stmt:file,err:=openFileToReader(goFilename,gunzip)",
+         "do:out.startFileReading(goFilename)", "do:out.syncReaderToBatcher(goFilename,file,batchSize)",
+         "do:file.Close()", "do:<-sema", "do:out.stopFileReading(goFilename)", "do:wg.Done()"]
+      else
+        ["stmt:varfileio.ReadCloser", "stmt:file,err:=openFileToReader(goFilename,gunzip)",
+         "do:logger.Printf(\"Erroropeningfile%s:%v\",goFilename,err)", "do:out.incErrors()",
+         "do:<-sema", "do:out.stopFileReading(goFilename)", "do:wg.Done()"] := by
+  cases h : f.canOpen
+  · have : readerEnv f = fun c => c == "err!=nil" := by funext c; simp [readerEnv, h]
+    rw [this]; decide
+  · have : readerEnv f = fun _ => false := by funext c; simp [readerEnv, h]
+    rw [this]; decide
+
+/-- **The hand model of the reader goroutine IS the source text, interpreted.**  For every file oracle (missing,
+    directory, plain, gzip, failing after any number of bytes), `-z` or not: run the regenerated body of the goroutine
+    (`exec`, the branch taken by `err != nil` = the open failed) and give each executed statement its meaning on the
+    observables (`interpReader`: `out.incErrors()` counts, the two `logger.Printf` log, `syncReaderToBatcher` hands on
+    the lines of the opened reader's stream and runs the regenerated `OnError` callback of `Gen.C01` iff the stream
+    fails, …; an unknown statement, or `syncReaderToBatcher`/`Close` without an open file, sets `bad`).  The result is
+    `runFile`: same number of counted errors, same log lines, same delivered lines – and on BOTH paths exactly one slot
+    release, one `stopFileReading`, one `wg.Done()`, and `file.Close()` iff the file was opened.
+    A changed condition, a dropped / duplicated / moved `incErrors`, a release that only the success path runs
+    (seeded/C06-sema-open-error-leak) change the regenerated tree and break this equality. -/
+theorem reader_body_matches_source (gunzip : Bool) (name : Path) (f : FileOracle) :
+    let e := interpReader (onErrorBody Gen.C01.scanner_syncReaderToBatcher) gunzip name f (exec (readerEnv f) readerBody)
+    let r := runFile gunzip name f
+    e.bad = false ∧ r.errs = e.errs ∧ r.logs = e.logs ∧ r.lines = e.lines ∧
+    e.released = 1 ∧ e.stopped = 1 ∧ e.done = 1 ∧
+    e.started = (if f.canOpen then 1 else 0) ∧ e.closed = e.started := by
+  intro e r
+  have hcb : (onErrorBody Gen.C01.scanner_syncReaderToBatcher).map classify = [.incErr, .logReadErr] := by decide
+  cases ho : f.canOpen
+  · have hops : (exec (readerEnv f) readerBody).map classify =
+        [.declFile, .openFile, .logOpenErr, .incErr, .release, .stop, .wgDone] := by
+      rw [reader_exec_source f, ho]; decide
+    have hop : openFileToReader f gunzip = none := by simp [openFileToReader, openFileToReaderG, ho]
+    simp only [e, r, interpReader, hops, hcb, List.foldl, interpStmt, runFile, hop]
+    simp
+  · have hops : (exec (readerEnv f) readerBody).map classify =
+        [.declFile, .openFile, .start, .sync, .closeFile, .release, .stop, .wgDone] := by
+      rw [reader_exec_source f, ho]; decide
+    simp only [e, r, interpReader, hops, hcb, List.foldl, interpStmt, runFile]
+    cases hop : openFileToReader f gunzip with
+    | none =>
+      exfalso
+      simp only [openFileToReader, openFileToReaderG, ho] at hop
+      revert hop
+      cases gunzip <;> cases f.gzHeaderOk <;> simp
+    | some p =>
+      obtain ⟨rd, fb⟩ := p
+      cases hs : streamOf f rd with
+      | mk data fails =>
+        cases fails <;> cases fb <;> simp [hs, runStream, interpOnError]
+
+/-- the interpretation discriminates: the body of seeded/C06-sema-open-error-leak (release + `stopFileReading` deferred
+    only after a successful open) run on a missing file releases no slot and never calls `stopFileReading`; a body without
+    `out.incErrors()` in the failure branch counts 0 errors where `runFile` counts 1 -/
+example :
+    let leak : Ctl := .deferS (.simple "do:wg.Done()" .nil) (.simple "stmt:varfileio.ReadCloser"
+      (.simple "stmt:file,err:=openFileToReader(goFilename,gunzip)"
+      (.ifS "err!=nil" (.simple "do:logger.Printf(\"Erroropeningfile%s:%v\",goFilename,err)" (.simple "do:out.incErrors()" (.ret "" .nil))) .nil
+      (.deferS (.simple "do:file.Close()" .nil) (.simple "do:out.startFileReading(goFilename)"
+      (.deferS (.simple "do:<-sema" (.simple "do:out.stopFileReading(goFilename)" .nil))
+      (.simple "do:out.syncReaderToBatcher(goFilename,file,batchSize)" .nil)))))))
+    let nocount : Ctl := .deferS (.simple "do:<-sema" (.simple "do:out.stopFileReading(goFilename)" (.simple "do:wg.Done()" .nil)))
+      (.simple "stmt:file,err:=openFileToReader(goFilename,gunzip)" (.ifS "err!=nil" (.ret "" .nil) .nil .nil))
+    let e1 := interpReader [] false [120] FileOracle.missing (exec (readerEnv FileOracle.missing) leak)
+    let e2 := interpReader [] false [120] FileOracle.missing (exec (readerEnv FileOracle.missing) nocount)
+    e1.released = 0 ∧ e1.stopped = 0 ∧ e1.done = 1 ∧ e1.errs = 1 ∧ e1.bad = false ∧
+    e2.errs = 0 ∧ e2.released = 1 ∧ (runFile false [120] FileOracle.missing).errs = 1 := by
+  decide
+
 
 end Rare.C06
